@@ -71,9 +71,23 @@ class RGen:
         if a is None:
             return []
         out = self.fresh()
+        if self.gen >= 5 and t.pick(10) == 0:
+            # version 5: two constants that differ in nothing but the sign of zero, each the divisor of the same value
+            z1, z2, o2 = self.fresh("zp"), self.fresh("zn"), self.fresh()
+            form = t.pick(2)
+            for zname, zval in ((z1, 0.0), (z2, -0.0)):
+                if form == 0:
+                    nodes.append(oh.make_node("Constant", [], [zname], value_float=zval, name=self.nname("Constant")))
+                else:
+                    nodes.append(oh.make_node("Constant", [], [zname], value_floats=[1.0, zval, 2.0], name=self.nname("Constant")))
+            nodes.append(oh.make_node("Div", [a, z1], [out], name=self.nname("Div")))
+            nodes.append(oh.make_node("Div", [a, z2], [o2], name=self.nname("Div")))
+            self.features.add("constants_differing_in_the_sign_of_zero")
+            return [(out, "F23"), (o2, "F23")]
         if k == 0 or k == 1:
             b = [F23(), self.pick_kind(pool, "F3"), self.pick_kind(pool, "F")][t.pick(3)] or F23()
-            op = ["Add", "Sub", "Mul"][t.pick(3)]
+            # version 5: division too (by the scalar constants 0.0 / -0.0 among others: the sign of a zero decides the result)
+            op = ["Add", "Sub", "Mul", "Div"][t.pick(4)] if self.gen >= 5 else ["Add", "Sub", "Mul"][t.pick(3)]
             ins = [a, b] if t.pick(2) else [b, a]
             nodes.append(oh.make_node(op, ins, [out], name=self.nname(op)))
             return [(out, "F23")]
@@ -233,7 +247,13 @@ class RGen:
             nodes.append(oh.make_node("Constant", [], [out], value=nph.from_array(arr, name="const_t"), name=self.nname("Constant")))
             return [(out, "F23")]
         if form == 1:
-            nodes.append(oh.make_node("Constant", [], [out], value_float=[0.5, 2.0, -1.0][t.pick(3)], name=self.nname("Constant")))
+            if self.gen >= 5:
+                vf = [0.5, 2.0, -1.0, 0.0, -0.0, 0.0, -0.0][t.pick(7)]
+                if vf == 0.0:
+                    self.features.add("signed_zero_constant")
+            else:
+                vf = [0.5, 2.0, -1.0][t.pick(3)]
+            nodes.append(oh.make_node("Constant", [], [out], value_float=vf, name=self.nname("Constant")))
             return [(out, "F")]
         if form == 2:
             nodes.append(oh.make_node("Constant", [], [out], value_floats=[1.0, 2.0, float(1 + t.pick(3))], name=self.nname("Constant")))
@@ -310,6 +330,16 @@ class RGen:
                 res2 = self.fresh("bi")
                 bn.append(oh.make_node("Add", [res, bname], [res2], name=self.nname("Add")))
                 res = res2
+            if self.gen >= 5 and depth == 0 and self.functions and t.pick(2) == 0:
+                # version 5: a value of a branch of a main-graph If carries a name that model-local functions use inside their
+                # bodies ("k", "t", "s", "o": separate name spaces, so the model is valid)
+                internal = sorted({o for f in self.functions.values() for n in f.node for o in n.output if o and o not in f.output}) or ["k"]
+                inner_name = internal[t.pick(len(internal))]
+                res5 = self.fresh("fnm")
+                bn.append(oh.make_node("Neg", [res], [inner_name], name=self.nname("Neg")))
+                bn.append(oh.make_node("Neg", [inner_name], [res5], name=self.nname("Neg")))
+                res = res5
+                self.features.add("branch_value_named_like_a_function_internal_value")
             if self.gen >= 2 and reuse_local:
                 # sibling branches reuse one local value name with different element types (legal: the scopes are disjoint)
                 tmp = f"tmp_local_d{depth}_{reuse_tag}"
